@@ -48,6 +48,8 @@ func gen(args []string) {
 		genQuote(w, tier, r)
 	case "SPEC":
 		genSpec(w, tier, r)
+	case "TREE":
+		genTree(w, tier, r)
 	default:
 		fmt.Fprintln(os.Stderr, "unknown channel", ch)
 		os.Exit(2)
